@@ -1,6 +1,6 @@
 (* C01 — Due jobs are executed on time and never early.
    Only statements and one-line proofs live here; the lemmas are in theories/Sched*.v. *)
-From EAS Require Import Base Sched SchedInv SchedApi SchedProps SchedLog.
+From EAS Require Import Base Sched SchedInv SchedApi SchedProps SchedLog SchedFuel.
 
 (* Every reachable state (any history of creations, control operations, clock advances, wake-ups and
    early wake-ups, any triggers, any failing user code) satisfies the scheduler invariant: the queue
@@ -50,3 +50,73 @@ Theorem C01_early_wake_harmless :
     step_op E (S (S (S fuel))) hs s OEarlyWake = (s', Done) -> s' = s.
 Proof. exact early_wake_harmless. Qed.
 Print Assumptions C01_early_wake_harmless.
+
+
+(* FUEL.  The model bounds the recursion of the re-entrant core with a fuel argument; the theorems above are
+   conditional on "no NoFuel outcome".  The following remove the caveat. *)
+
+(* more fuel never changes a result: each of the six core functions that answers with fuel f answers the same with
+   every f' >= f *)
+Theorem C01_fuel_mono : forall E f,
+  (forall f' s s', (f <= f')%nat -> set_timer E f s = Some s' -> set_timer E f' s = Some s') /\
+  (forall f' s s', (f <= f')%nat -> run_jobs E f s = Some s' -> run_jobs E f' s = Some s') /\
+  (forall f' s s', (f <= f')%nat -> run_loop E f s = Some s' -> run_loop E f' s = Some s') /\
+  (forall f' j s s', (f <= f')%nat -> add_job E f j s = Some s' -> add_job E f' j s = Some s') /\
+  (forall f' j s s', (f <= f')%nat -> remove_job E f j s = Some s' -> remove_job E f' j s = Some s') /\
+  (forall f' j t s s', (f <= f')%nat -> exec_job E f j t s = Some s' -> exec_job E f' j t s = Some s').
+Proof. exact fuel_mono. Qed.
+Print Assumptions C01_fuel_mono.
+
+(* when triggers answer strictly in the future (C04), fuel linear in the number of DUE jobs suffices for the core
+   from every well-formed state; Example core_bounds_tight (SchedFuel.v) shows the first three bounds are exact *)
+Theorem C01_core_fuel_sufficient :
+  forall E, (forall j k t, exists v, prod E j k t = Ok v /\ t < v) ->
+  forall X s, WFq X s ->
+    (exists s', run_loop E (due s + 3) s = Some s') /\
+    (exists s', run_jobs E (due s + 4) s = Some s') /\
+    (exists s', set_timer E (due s + 5) s = Some s') /\
+    (forall j, exists s', remove_job E (due s + 6) j s = Some s') /\
+    (forall j, ~ In j (queue s) -> exists s', add_job E (due s + 7) j s = Some s').
+Proof. exact core_total. Qed.
+Print Assumptions C01_core_fuel_sufficient.
+
+(* every API operation and every wake-up, from every state satisfying the invariant, completes with
+   (number of jobs ever created) + 7 units of fuel *)
+Theorem C01_step_total :
+  forall E, (forall j k t, exists v, prod E j k t = Ok v /\ t < v) ->
+  forall fuel hs s o, Inv s -> (njobs s + 7 <= fuel)%nat ->
+    exists s' r, step_op E fuel hs s o = (s', r) /\ r <> NoFuel.
+Proof. exact step_total. Qed.
+Print Assumptions C01_step_total.
+
+(* every history: with |ops| + 7 units of fuel or more no outcome is NoFuel and the final state satisfies the
+   invariant - C01_invariant_reachable without its premise *)
+Theorem C01_run_total :
+  forall E, (forall j k t, exists v, prod E j k t = Ok v /\ t < v) ->
+  forall hs t0 en ops fuel, (length ops + 7 <= fuel)%nat ->
+    let (s, rs) := run E fuel hs (init t0 en) ops in Inv s /\ ~ In NoFuel rs.
+Proof. exact run_total_init. Qed.
+Print Assumptions C01_run_total.
+
+Theorem C01_run_exists_fuel :
+  forall E, (forall j k t, exists v, prod E j k t = Ok v /\ t < v) ->
+  forall hs t0 en ops, exists fuel, let (s, rs) := run E fuel hs (init t0 en) ops in Inv s /\ ~ In NoFuel rs.
+Proof. exact run_exists_fuel. Qed.
+Print Assumptions C01_run_exists_fuel.
+
+(* the fuel is an artefact of the encoding: a history that completes gives exactly the same state and outcomes
+   with every larger fuel (any environment), hence all sufficient fuels agree *)
+Theorem C01_run_fuel_mono :
+  forall E f f' hs ops s s' rs, (f <= f')%nat ->
+    run E f hs s ops = (s', rs) -> ~ In NoFuel rs -> run E f' hs s ops = (s', rs).
+Proof. exact run_mono. Qed.
+Print Assumptions C01_run_fuel_mono.
+
+Theorem C01_run_fuel_irrelevant :
+  forall E hs t0 en ops f f',
+    (forall j k t, exists v, prod E j k t = Ok v /\ t < v) ->
+    (length ops + 7 <= f)%nat -> (length ops + 7 <= f')%nat ->
+    run E f hs (init t0 en) ops = run E f' hs (init t0 en) ops.
+Proof. exact run_fuel_irrelevant. Qed.
+Print Assumptions C01_run_fuel_irrelevant.
+
